@@ -307,7 +307,7 @@ def e2e(ctx, objdir):
         # options: -F / -N on function classes (suffix _f<k>), -D
         trig = {}
         opts = []
-        present = sorted({int(n.rsplit("_f", 1)[1]) for n in names.values()})
+        present = sorted({int(n.rsplit("_f", 1)[1]) for n in names.values() if isinstance(n, str)})
         ks = rng.sample(present, min(len(present), rng.randrange(1, 3)))     # a pattern that matches nothing
                                                                              # does not count as a filter
         facts = rng.choice(["none", "all", "mixed"])
